@@ -1109,6 +1109,10 @@ package ion
 //@ ensures[C14] d.scale > 0 && d.isNegZero ==> len(result) >= 3 && result[0] == '-' && result[1] == '0' && result[2] == 'd'
 //@ ensures[C14] d.scale > 0 && !d.isNegZero && d.n.Sign() < 0 ==> len(result) >= 2 && result[0] == '-' && result[1] == d.n.String()[1]
 //@ ensures[C14] d.scale > 0 && !d.isNegZero && d.n.Sign() >= 0 ==> len(result) >= 1 && result[0] == d.n.String()[0]
+//@ ensures[C14] d.scale > 0 && !d.isNegZero && d.n.Sign() >= 0 && int64(len(d.n.String()))-int64(d.scale) >= 1 ==>
+//@    len(result) == len(d.n.String())+1 && result[len(d.n.String())-int(d.scale)] == '.'
+//@ ensures[C14] d.scale > 0 && !d.isNegZero && d.n.Sign() < 0 && int64(len(d.n.String()))-int64(d.scale) >= 2 ==>
+//@    len(result) == len(d.n.String())+1 && result[len(d.n.String())-int(d.scale)] == '.'
 //@ safe[C06,C14]
 
 //@ func (Timestamp).String
